@@ -20,9 +20,11 @@ harnesses! {
     h_c09_readonly => readonly_system_variables(),
     h_c09_event => event_fields(),
     h_c09_binding => binding(),
+    h_c09_in_shared => in_shared(),
 }
 
 pub const KF_EVENT_FIELD_WRITABLE: u32 = 901;
+pub const KF_EVENT_DATA_MEMBER_WRITABLE: u32 = 902;
 
 fn src(t: &str, id: usize) -> Data { Data::Source(SourceCode::new(t, id)) }
 
@@ -76,25 +78,44 @@ fn value_of(g: &GlobalDataArc, expr: &str) -> String {
 fn readonly_system_variables() {
     let g = create_global_data_arc();
     g.lock().unwrap().session_id = 7;
+    {
+        // the SCXML I/O processor of an executor, so that _ioprocessors has an entry with a location
+        let ex = rufsm::fsm_executor::FsmExecutor::new_without_io_processor();
+        let st = ex.state.lock().unwrap();
+        let mut l = g.lock().unwrap();
+        for p in &st.processors { let pg = p.lock().unwrap(); for t in pg.get_types() { l.io_processors.insert(t.to_string(), p.clone()); } }
+    }
     let mut dm = RFsmExpressionDatamodel::new(g.clone());
     dm.initialize_read_only("_sessionid", Data::Integer(7));
     dm.initialize_read_only("_name", Data::String("machine".to_string()));
     dm.set_ioprocessors();
     let mut ev = Event::new_simple("e.v");
     ev.sendid = Some("sid".to_string());
+    ev.param_values = Some(vec![ParamPair::new("p", &Data::Integer(5))]);
     dm.set_event(&ev);
-    let k = vnd_conc(vnd_range(0, 7, 1), 7);
+    let k = vnd_conc(vnd_range(0, 12, 1), 12);
     let x = 40 + vnd_conc(vnd_range(0, 2, 2), 2) as i64;
     g.lock().unwrap().data.set_undefined("x".to_string(), Data::Integer(x));
     g.lock().unwrap().data.set_undefined("w".to_string(), Data::Integer(0));
     let (loc, probe) = match k {
         0 => ("_sessionid", "_sessionid"), 1 => ("_name", "_name"), 2 => ("_event", "_event.name"), 3 => ("_ioprocessors", "_sessionid"),
         4 => ("_event.name", "_event.name"), 5 => ("_event.sendid", "_event.sendid"), 6 => ("_event.data", "_event.type"),
+        8 => ("_name", "_name"), 9 => ("_name", "_name"), 10 => ("_name", "_name"),
+        11 => ("_ioprocessors['scxml'].location", "_ioprocessors['scxml'].location"), 12 => ("_event.data.p", "_event.data.p"),
         _ => ("w", "w"),
     };
     let before = value_of(&g, probe);
     let via_script = vnd_bool(3);
-    let ok = if via_script {
+    let ok = if k == 8 {
+        // the "assign if undefined" operator
+        dm.execute(&src(format!("{} ?= x", loc).as_str(), 0)).is_ok()
+    } else if k == 9 {
+        // <foreach item="_name">
+        dm.execute_for_each(&src("[1, 2]", 0), "_name", "", &mut |_d: &mut dyn Datamodel| -> bool { true })
+    } else if k == 10 {
+        // <foreach item="it" index="_name">
+        dm.execute_for_each(&src("[1, 2]", 0), "it", "_name", &mut |_d: &mut dyn Datamodel| -> bool { true })
+    } else if via_script {
         dm.execute(&src(format!("{} = x", loc).as_str(), 0)).is_ok()
     } else {
         dm.assign(&src(loc, 0), &src("x", 0))
@@ -107,9 +128,19 @@ fn readonly_system_variables() {
         // a declared writable location does change
         vnd_check(911, ok && nerr == 0 && after == format!("{}", x));
     } else {
-        let field = k >= 4;
-        vnd_check_kf(912, !ok && after == before, KF_EVENT_FIELD_WRITABLE, field);
-        vnd_check_kf(913, nerr >= 1, KF_EVENT_FIELD_WRITABLE, field);
+        let field = k >= 4 && k <= 6;
+        if k == 12 {
+            // known finding 902: members below _event.data are writable
+            vnd_check_kf(912, !ok && after == before, KF_EVENT_DATA_MEMBER_WRITABLE, true);
+            vnd_check_kf(913, nerr >= 1, KF_EVENT_DATA_MEMBER_WRITABLE, true);
+        } else if k == 9 || k == 10 {
+            // foreach: the loop variable must not overwrite a system variable, and the attempt is an error
+            vnd_check(912, after == before);
+            vnd_check(913, nerr >= 1);
+        } else {
+            vnd_check_kf(912, !ok && after == before, KF_EVENT_FIELD_WRITABLE, field);
+            vnd_check_kf(913, nerr >= 1, KF_EVENT_FIELD_WRITABLE, field);
+        }
     }
     vnd_obs(1, if ok { 1 } else { 0 });
 }
@@ -143,8 +174,10 @@ fn event_fields() {
 /// first entry, before its onentry content, and not again on re-entry
 fn binding() {
     let ix = vnd_conc(vnd_range(0, 2, 1), 2);
-    let sh = shape_by_index(if ix == 0 { 1 } else if ix == 1 { 3 } else { 6 });
+    let mut sh = shape_by_index(if ix == 0 { 1 } else if ix == 1 { 3 } else { 6 });
     let late = vnd_bool(2);
+    // reader-built models never enter the <scxml> element: its data must have their values before any content all the same
+    sh.root_internal = vnd_bool(3);
     let mut m = Model { sh, ts: Vec::new(), late };
     // 2 -> (another top-level child) -> back: re-entry of state 2
     let other = if ix == 0 { 5 } else if ix == 1 { 9 } else { 2 };
@@ -172,7 +205,7 @@ fn binding() {
             if set { if valued & (1 << s) != 0 { ok = false; } valued |= 1 << s; }
             if !late && first_content != usize::MAX { ok = false; }        // early: nothing is initialised after content started
         } else if t < TOK_G {
-            if first_content == usize::MAX { first_content = i; }
+            if first_content == usize::MAX { first_content = i; if valued & 2 == 0 { ok = false; } }   // top-level data are bound before any content
             if t >= X_ENTRY && t < X_ENTRY + 100 { let s = t - X_ENTRY; if valued & (1 << s) == 0 { ok = false; } }   // onentry(s) only after s got its values
         }
         i += 1;
@@ -182,4 +215,39 @@ fn binding() {
     vnd_cover(931);
     vnd_check(931, ok && first_content != usize::MAX);
     vnd_obs(1, dm.log.len() as u64);
+}
+
+/// In() of one session must not be disturbed by another session that was started with a copy of its action table (what Fsm::invoke
+/// and the executor hand to a child): after the child registered its own In(), the parent still sees its own configuration
+fn in_shared() {
+    let sh = shape_by_index(2);
+    let m = Model { sh, ts: Vec::new(), late: false };
+    let mut fsm = build_fsm(&m);
+    let g = new_global();
+    let mask = vnd_range(0, (1 << (m.sh.n + 1)) - 1, 1) & !1;
+    let q = vnd_conc(vnd_range(1, m.sh.n as u32, 2), m.sh.n as u32);
+    {
+        let mut gd = g.lock().unwrap();
+        let mut s = 1u32;
+        while s <= m.sh.n as u32 { if mask & (1 << s) != 0 { gd.configuration.add(s); } s += 1; }
+    }
+    let mut dm = RFsmExpressionDatamodel::new(g.clone());
+    dm.add_functions(&mut fsm);
+    // the child: other state names (ids overlap), its own global data, the parent's action table as start_fsm receives it
+    let mut child = Fsm::new();
+    let mut c1 = State::new("kid_a"); c1.id = 1; let mut c2 = State::new("kid_b"); c2.id = 2;
+    child.states.push(c1); child.states.push(c2);
+    let cg = new_global();
+    cg.lock().unwrap().actions = g.lock().unwrap().actions.get_copy();
+    cg.lock().unwrap().configuration.add(2);
+    let mut cdm = RFsmExpressionDatamodel::new(cg.clone());
+    cdm.add_functions(&mut child);
+    let text = format!("In('s{}')", q);
+    let r = dm.execute_condition(&src(text.as_str(), 0));
+    vnd_cover(941);
+    vnd_check(941, r == Ok(mask & (1 << q) != 0));
+    let rc = cdm.execute_condition(&src("In('kid_b')", 0));
+    let rc2 = cdm.execute_condition(&src("In('kid_a')", 0));
+    vnd_check(942, rc == Ok(true) && rc2 == Ok(false));
+    vnd_obs(1, if r == Ok(true) { 1 } else { 0 });
 }
